@@ -83,10 +83,9 @@ func (it *Iterator) Refresh() {
 	if it.Valid() {
 		itm := it.snap.db.ptrToItem(it.GetNode().Item())
 		it.iter.Close()
-		it.iter = it.snap.db.store.NewIterator(it.snap.db.iterCmp, it.buf)
+		it.iter = it.snap.db.store.NewIterator(it.snap.db.insCmp, it.buf)
 		it.iter.Seek(unsafe.Pointer(itm))
-		// Seek lands on the oldest physical version of the key; move to
-		// the version visible in this snapshot again.
+		// Re-apply the snapshot visibility filter at the new position.
 		it.skipUnwanted()
 	}
 }
@@ -111,9 +110,13 @@ func (m *Nitro) NewIterator(snap *Snapshot) *Iterator {
 		return nil
 	}
 	buf := snap.db.store.MakeBuf()
+	// The store iterator uses the insert comparator (key, then bornSn): it is
+	// a total order on the versions, so a re-search after a concurrent unlink
+	// resumes behind the removed version. Seek probes carry bornSn 0 and
+	// therefore still land on the first version of a key.
 	return &Iterator{
 		snap: snap,
-		iter: m.store.NewIterator(m.iterCmp, buf),
+		iter: m.store.NewIterator(m.insCmp, buf),
 		buf:  buf,
 	}
 }
